@@ -12,6 +12,7 @@ import numpy as np
 
 from ..core import import_library
 from ..gen import terms as G
+from ..env import ENVIRONMENTS, Held, excusable, hostile
 from ..probe import Probe, Reach, plain_function
 from ..ref import norms as N
 from ..ref import terms as R
@@ -25,8 +26,7 @@ def feq(a, b, tol=0.0):
 
 
 def kind_of(term):
-    name = type(term).__name__
-    if name in TS:
+    if any(c.__name__ in TS for c in type(term).__mro__):  # (a user's subclass of Constant / Linear / Function is of that family)
         return "TakagiSugeno"
     return "Tsukamoto" if term.is_monotonic() else "Automatic"
 
@@ -303,11 +303,14 @@ def run(ctx):
     ctx.assumptions += ["z values come from the library's own membership/tsukamoto (C03/C11)", "degrees of a repeated term are folded with the scalar formulas of vf/ref/norms.py", "Tsukamoto degrees above the term's height (possible under sum-like aggregation) are out of domain", "tolerance 1e-12 x magnitude (1e-5 when a degree array is float32: the library then computes in single precision)"]
     funcs = {"WeightedAverage.defuzzify": fl.WeightedAverage.defuzzify, "WeightedSum.defuzzify": fl.WeightedSum.defuzzify, "Aggregated.grouped_terms": fl.Aggregated.grouped_terms, "WeightedDefuzzifier.infer_type": plain_function(fl.WeightedDefuzzifier, "infer_type")}
     funcs = {k: v for k, v in funcs.items() if v is not None and hasattr(v, "__code__")}
+    ctx.excuse = lambda mechanism, observed, note: excusable(observed)
+    kept = Held(ctx)
     with Reach(funcs) as reach, Probe() as probe:
         mon = WeightedMonitor(ctx, fl)
         mon.install(probe)
         for i, rnd in ctx.cases("sets", nsets):
             batch = rnd.choice([0, 0, 0, 2, 3, 5])
+            envname = ENVIRONMENTS[(i // 10) % len(ENVIRONMENTS)] if i % 10 == 3 else None
             engine, specs, acts, aggregation, family = gen_set(fl, rnd, batch)
             agg_op = getattr(fl, aggregation)() if aggregation else None
             out = fl.Aggregated("o", -3.0, 7.0, agg_op, [fl.Activated(t, d) for t, d in acts])
@@ -324,7 +327,14 @@ def run(ctx):
                         dz = fl.settings.factory_manager.defuzzifier.construct(cls.__name__)
                         dz.configure(type_ if type_ != "Automatic" or i % 2 else "")
                     try:
-                        base = np.asarray(dz.defuzzify(out), dtype=float)
+                        with hostile(fl, envname, ctx):
+                            handed = dz.defuzzify(out)
+                        base = np.array(handed, dtype=float, copy=True)
+                        # the same defuzzifier object asked again about a set of the same batch size: what it returned before stays
+                        kept.keep(f"{cls.__name__}.defuzzify", handed)
+                        dz.defuzzify(fl.Aggregated("o", -3.0, 7.0, agg_op, [fl.Activated(t, np.asarray(d, dtype=float) * 0.5) for t, d in acts]))
+                        kept.check("the next defuzzification with the same object")
+                        kept.clear()
                     except Exception:
                         continue  # judged by the monitor
                     # a zero-degree activation at every position never changes the result
@@ -407,6 +417,47 @@ def run(ctx):
                         ctx.violation("infer_type does not infer the kind from the terms", {"terms": [str(t) for t in members]}, want, got)
             if i < 3:
                 ctx.sample("set", {"family": family, "aggregation": aggregation, "set": out.parameters(), "terms": [str(t) for _, t in specs], "WeightedAverage": safe(lambda: fl.WeightedAverage().defuzzify(out))})
+        # terms of a user's own classes: a monotonic term derived directly from Term (it says so itself and has its own Tsukamoto
+        # value), a constant-like term derived from Constant; alone and next to built-in terms of the same family
+        class Power(fl.Term):
+            def __init__(self, name, start, end, exponent, height=1.0):
+                super().__init__(name, height)
+                self.start, self.end, self.exponent = start, end, exponent
+
+            def membership(self, x):
+                x = fl.scalar(x)
+                return self.height * np.where(np.isnan(x), np.nan, np.clip((x - self.start) / (self.end - self.start), 0.0, 1.0) ** self.exponent)
+
+            def is_monotonic(self):
+                return True
+
+            def tsukamoto(self, y):
+                return self.start + (self.end - self.start) * (fl.scalar(y) / self.height) ** (1.0 / self.exponent)
+
+        class Offset(fl.Constant):
+            pass
+
+        for i, rnd in ctx.cases("user terms", ctx.scale(60, 1500)):
+            batch = rnd.choice([0, 0, 3])
+            deg = lambda: (np.array([rnd.choice([0.0, 0.25, 1.0, rnd.random()]) for _ in range(batch)]) if batch else rnd.choice([0.0, 0.25, 0.5, 1.0, rnd.random()]))  # noqa: E731
+            if i % 3 == 2:
+                terms = [Offset(f"k{j}", G.snap(rnd.uniform(-3, 7), 3)) for j in range(rnd.randint(1, 3))] + ([fl.Constant("c", 1.5)] if rnd.random() < 0.5 else [])
+            else:
+                terms = [Power(f"p{j}", 0.0, rnd.choice([1.0, 2.0, 4.0]), rnd.choice([0.5, 2.0, 3.0])) for j in range(rnd.randint(1, 3))] + ([fl.Ramp("r", 0.0, 2.0)] if rnd.random() < 0.5 else [])
+            acts = [fl.Activated(rnd.choice(terms), deg()) for _ in range(rnd.randint(1, 4))]
+            out = fl.Aggregated("o", -3.0, 7.0, rnd.choice([None, fl.Maximum()]), acts)
+            for cls in (fl.WeightedAverage, fl.WeightedSum):
+                for type_ in ("Automatic", "Automatic", "Tsukamoto" if i % 3 != 2 else "TakagiSugeno"):
+                    try:
+                        cls(type_).defuzzify(out)
+                    except Exception:
+                        pass  # judged by the monitor
+            want = "TakagiSugeno" if i % 3 == 2 else "Tsukamoto"
+            got = fl.WeightedDefuzzifier.infer_type(out).name
+            ctx.evaluated()
+            if got != want:
+                ctx.violation("infer_type does not infer the kind from the terms", {"terms": [str(t) for t in terms], "user_classes": True}, want, got)
+            ctx.hit("workload:terms of a user's own classes")
         # fuzzy outputs with more than 64 distinct terms (stacked accumulation): constants, one activation each, scalar and batch
         for i, rnd in ctx.cases("many terms", ctx.scale(6, 200)):
             k = rnd.choice([65, 66, 80, 129, 200])
@@ -424,6 +475,7 @@ def run(ctx):
             ctx.hit("workload:more than 64 distinct terms")
         probe.report(ctx)
         reach.report(ctx)
+    ctx.require("workload:terms of a user's own classes", "law:values handed out earlier are left alone", *[f"environment:{e}" for e in ENVIRONMENTS])
     ctx.require("event:defuzzification gave up part-way", "workload:more than 64 distinct terms", "law:defuzzification leaves inputs and degrees untouched")
     ctx.require("hook:WeightedAverage.defuzzify", "hook:WeightedSum.defuzzify", "hook:Aggregated.grouped_terms", "hook:Aggregated.activation_degree", "law:zero-degree insertion", "piece:mixed-kinds", "piece:zero-degree-member", "piece:repeated-term-grouped", "piece:nan:no-activations", "piece:nan:all-weights-zero", "law:average-of-constants-bounded", "calls:WeightedAverage:batch", "calls:WeightedSum:batch", "event:aggregated object reused with other contents")
     for k in ("WeightedAverage", "WeightedSum"):
